@@ -678,7 +678,7 @@ impl Prop for C15 {
             assumptions: vec!["event loop abstracted by explicit ticks; socket-level I/O errors are not explored".into(),
                 "dedup: the canonical snapshot (all FileContext/StreamContext fields the handlers branch on) determines future behaviour; lifecycle/eac timers only influence asynchronous info frames".into(),
                 "one generated 8-message log file".into()],
-            budget_s: (50, 1500),
+            budget_s: (180, 1500),
             workers: 1,
             required_landmarks: vec!["reply_ok", "reply_err", "reply_unknown", "stream_created", "query_finished(marker)", "backpressure_close_scenario", "tcp_conformance_ok"],
         }
